@@ -146,7 +146,7 @@ Bang(c) == "!" \o c
 Selected(list) ==
   IF list = <<>> THEN Countries
   ELSE IF \A i \in 1..Len(list) : list[i][1] = "!" THEN Countries \ {list[i][2] : i \in 1..Len(list)}
-  ELSE {list[i][2] : i \in {j \in 1..Len(list) : list[j][1] = "+"}}
+  ELSE {list[i][2] : i \in {j \in 1..Len(list) : list[j][1] = "+"}} \cap Countries     \* a code that is not in the table selects nothing
 
 \* fed = sum pop * min(1, ratio), as the rational <<numerator, denominator>> over a common denominator 2
 RECURSIVE FedTwice(_, _)
@@ -158,7 +158,8 @@ FedTwice(S, ratio) == IF S = {} THEN 0
 RECURSIVE Tot(_)
 Tot(S) == IF S = {} THEN 0 ELSE LET c == CHOOSE x \in S : TRUE IN Pop[c] + Tot(S \ {c})
 
-Entries == {<<"+", c>> : c \in Countries} \cup {<<"!", c>> : c \in Countries}
+Unknown == "ZZZ"      \* a code that is not in the country table
+Entries == {<<"+", c>> : c \in Countries \cup {Unknown}} \cup {<<"!", c>> : c \in Countries \cup {Unknown}}
 Lists == {<<>>} \cup {<<a>> : a \in Entries} \cup {<<a, b>> : a \in Entries, b \in Entries}
 CONSTANT RatioAssignments   \* the ratio functions Countries -> RatioGrid to enumerate
 AggregateCases == {[list |-> l, ratio |-> rt] : l \in Lists, rt \in RatioAssignments}
